@@ -5,7 +5,20 @@ Proof (Props/C03.lean; details in that file's header): record encoders = specifi
 (`hdr_set_get`, `hdr_set_frame`, ...), construction (`create_inv`, `sectionsAdd_name`), the stream
 (`saveSection_writes`), and the composition `save_decodes` / `save_decode_fields` / `save_decode_header`
 (saved bytes decode, per the specification, to the object's header, sections incl. data, segments) under
-C04's disjointness taken as hypothesis `LayoutOk` - all rungs (no / flat / nested segments) at once.  Correspondence: harness/load.cpp (real API: create, setters,
+C04's disjointness taken as hypothesis `LayoutOk` - all rungs (no / flat / nested segments) at once.
+COMPOSITION WITH C04 (Props/C03Compose.lean): `layoutOk_of_save` derives `LayoutOk` for EVERY successful save
+from C04.layout_disjoint via layoutOk_of_zones; `save_segFit` shows the saved segments fit the class's fields
+(ELF32); `save_decode_fields_of_save` / `save_decode_header_of_save` are save_decode_fields / save_decode_header
+with no layout hypothesis left: the hypotheses are the success of save into a good stream and `SaveDomain o hdr`,
+decidable facts about the INPUT object only - C04's (fewer than 2^16 sections, no file-occupying section with
+index 0, no cursor wrap `layoutNW (preSave o) hdr`), table bookkeeping `TablesOk` (header buffer of sizeof(Ehdr)
+bytes with e_ehsize saying so, e_shentsize/e_phentsize >= the record sizes, < 2^16 segments, sections/segments
+carry their position as index; Bool form `tablesOkB`), the size assumption `fileSmallB` (section header table ends
+below 2^63 and its offset fits e_shoff), no address translation, section/segment fields fit the class
+(`FieldsFit`/`SegFit`, trivial in ELF64).  `exBuilt_domain`: an object made through the model's
+create/sectionsAdd/set_data/segmentsAdd/segAddSection (PT_LOAD over .text+.note, nested PT_NOTE, loose section)
+is in SaveDomain and its save succeeds.  Still missing: section NAMES through .shstrtab for the saved file as a
+whole (sectionsAdd_name is per call), compression.  Correspondence: harness/load.cpp (real API: create, setters,
 sections.add, set_data, segments.add, add_section_index, save) vs Driver/Load.lean (Model/Writer.lean)
 — saved bytes compared in full.  Oracle: tools/elfspec.decode of the implementation's bytes vs the
 program's inputs.  Compression interface: not exercised (objects are constructed without one; with
@@ -15,7 +28,7 @@ from families.writercommon import *
 
 PROPERTY = "C03"
 FAMILY = "load"
-LEAN_MODULE = "ElfioVerif.Props.C03"
+LEAN_MODULE = "ElfioVerif.Props.C03Compose"
 THEOREMS = ["ElfioVerif.C03.encodeShdr_spec_bytes",
             "ElfioVerif.C03.encodePhdr_spec_bytes",
             "ElfioVerif.C03.encodeShdr_eq_spec",
@@ -41,7 +54,12 @@ THEOREMS = ["ElfioVerif.C03.encodeShdr_spec_bytes",
             "ElfioVerif.C03.save_decode_header",
             "ElfioVerif.C03.save_image_header",
             "ElfioVerif.C03.secWrites_pairwise",
-            "ElfioVerif.C03.layoutOk_of_zones"]
+            "ElfioVerif.C03.layoutOk_of_zones",
+            "ElfioVerif.C03.layoutOk_of_save",
+            "ElfioVerif.C03.save_segFit",
+            "ElfioVerif.C03.save_decode_fields_of_save",
+            "ElfioVerif.C03.save_decode_header_of_save",
+            "ElfioVerif.C03.exBuilt_domain"]
 SITES = ["conv", "save_", "lsws", "lst_", "lseg", "wsd", "sec32_set", "sec64_set", "sec32_insert", "sec64_insert"]
 RULE = ("API construction programs from a random-model generator (0-8 sections of mixed types/flags/alignments/"
         "sizes incl. empty and no-bits, 0-4 segments incl. nested ones and a section-less PT_PHDR, explicit or "
@@ -52,12 +70,47 @@ TRUSTED = ["tools/elfspec.py decoder"]
 KEEP_FIRST = 1
 
 
+def gen_explicit_tail(rng, cls, enc):
+    """a PT_LOAD whose members carry explicit addresses although they occupy no file space: an empty section
+    and/or a NOBITS section placed with a gap after the data (the typical `.bss` at an aligned address).
+    The writer must keep such an address (seeded change c03-explicit-address-overwritten-nobits-empty);
+    gen_program avoids explicit NOBITS addresses because of finding F14, which concerns p_memsz (C04),
+    not what C03 compares."""
+    base = 0x400000 + rng.choice([0, 0x1000, 0x234])
+    n = rng.choice([5, 16, 33, 100])
+    secs = [{"name": b".text", "type": 1, "flags": 6, "align": rng.choice([1, 4, 16]), "entsize": 0, "link": 0, "info": 0,
+             "addr": base, "data": rnd_bytes(rng, n), "size": n}]
+    a = base + n
+    if rng.random() < 0.6:
+        a += rng.choice([0, 3, 0x30])
+        secs.append({"name": b".empty", "type": 1, "flags": 2, "align": rng.choice([1, 8]), "entsize": 0, "link": 0,
+                     "info": 0, "addr": a, "data": b"", "size": 0})
+    if rng.random() < 0.8 or len(secs) == 1:
+        a += rng.choice([1, 0x10, 0xf0, 0x1000])
+        secs.append({"name": b".bss", "type": 8, "flags": 3, "align": rng.choice([1, 16, 32]), "entsize": 0, "link": 0,
+                     "info": 0, "addr": a, "data": None, "size": rng.choice([4, 0x100, 5000])})
+    if rng.random() < 0.4:
+        m = rng.choice([8, 24])
+        secs.append({"name": b".data", "type": 1, "flags": 3, "align": 8, "entsize": 0, "link": 0, "info": 0,
+                     "addr": None, "data": rnd_bytes(rng, m), "size": m})
+    members = [i + 2 for i, s in enumerate(secs) if s["addr"] is not None]
+    segs = [{"type": 1, "flags": 6, "align": rng.choice([0, 0x10, 0x1000]), "vaddr": base, "paddr": base,
+             "members": members, "explicit": True}]
+    return {"cls": cls, "enc": enc,
+            "hdr": {"type": 2, "machine": 62, "flags": 0, "entry": base, "os_abi": 0, "abi_version": 0},
+            "secs": secs, "segs": segs}
+
+
 def gen_cases(rng, tier):
     n = 160 if tier == "quick" else 2000
     for i in range(n):
         cls, enc = CFGS[i % 4]
         p = gen_program(rng, cls, enc)
         yield {"id": f"p{i}", "lines": to_lines(p) + ["save"], "meta": {"prog": jsonable(p)}}
+    for i in range(n // 5):
+        cls, enc = CFGS[i % 4]
+        p = gen_explicit_tail(rng, cls, enc)
+        yield {"id": f"xt{i}", "lines": to_lines(p) + ["save"], "meta": {"prog": jsonable(p)}}
 
 
 def jsonable(p):
